@@ -416,6 +416,15 @@ def r4(ctx, cfg):
         else:
             ok = False
     ctx.ob(R, key, "formula=stake*apr*dt/YEAR*(1-commission)", ok, "calculate_rewards computes %s" % d, fn=f, sample=d)
+    # stake x rate x seconds is formed before the division by YEAR: in the 128-bit Decimal (3.4e20) it overflows once
+    # stake x apr x dt reaches that - 1e15 base units (a billion tokens of a coin with six decimals) at 10 % after 39 days.
+    # Same shape as defect 10 (share_of_rewards): the products of amounts have to be formed in 256 bits.
+    narrow = [t["callee"].get("resolved") or t["callee"]["key"] for g in F.lexical(key) for b, t in g.calls()
+              if (t["callee"].get("resolved") or "").startswith("<cosmwasm_std::Decimal as std::ops::Mul<cosmwasm_std::Decimal>>") and
+              contains(P.call_args(g, t, b)[0], lambda x: x[0] == "call" and x[1].endswith("from_ratio"))]
+    ctx.ob("C15.R7", key, "product-of-amount-rate-and-time-formed-in-256-bits", not narrow,
+           "calculate_rewards forms stake x rate x seconds in the 128-bit Decimal (%d products): delegate 1_000_000_000_000_000, advance 365 days, and "
+           "query_delegation panics with \"attempt to multiply with overflow\"" % len(narrow), fn=f, sample="Decimal256 intermediates")
 
 
 def r7(ctx, cfg):
